@@ -314,6 +314,26 @@ def run_unit(unit, repo, scratch, features=None, rlimit=30, multiple_errors=4, t
             seen.add(key)
             uniq.append(f)
     failures = uniq
+
+    # A failed obligation is a verdict only where the proof had what it needs:
+    #  (a) a ghost hint of function F is anchored on a line of F's body; if that line is gone the proof of F misses a step;
+    #  (b) a helper function that a change introduced (not in the inventory of the pinned tree, no contract) tells its caller nothing.
+    # In both cases a failure in that function / in code calling the helper is UNDECIDED, never a violation.
+    lost_fns = set(h['fn'] for h in meta.get('lost_hints', []))
+    new_helpers = _new_helpers(unit, gen, fns)
+    kept = []
+    for f in failures:
+        if f['fn'] in lost_fns:
+            undecided.append('obligation %s/%s [%s]: the proof hint anchored on a body line of %s lost its anchor (the function text changed): undecided'
+                             % (f['fn'], f['arm'] or '-', f['kind'], f['fn']))
+            continue
+        callee = _calls_new_helper(gen, fns, f, new_helpers)
+        if callee:
+            undecided.append('obligation %s/%s [%s]: the code calls `%s`, a function the change introduced and for which there is no contract: undecided'
+                             % (f['fn'], f['arm'] or '-', f['kind'], callee))
+            continue
+        kept.append(f)
+    failures = kept
     if undecided and not failures:
         raise Undecided('unit %s: %s' % (name, '; '.join(undecided[:3])))
 
@@ -347,6 +367,54 @@ def run_unit(unit, repo, scratch, features=None, rlimit=30, multiple_errors=4, t
                 cmd='; '.join(cmds), file=out_rs, undecided=undecided, split_runs=split_runs,
                 verus_version=res.get('verus', {}).get('version'), canary_problems_pre=canary_problems,
                 canaries=len(canaries), queries=queries, cache_hits=cache_hits)
+
+
+_INV = []
+
+
+def _new_helpers(unit, gen, fns):
+    """names of functions defined in the source part of the generated file that are neither in the pinned tree's inventory nor contracted"""
+    if not _INV:
+        try:
+            _INV.append(json.load(open(os.path.join(VERIF, 'contracts', 'fn_inventory.json')))['units'])
+        except Exception:
+            _INV.append({})
+    inv = _INV[0].get(unit)
+    if inv is None:
+        return set()
+    import rsrc
+    names = set(rsrc.fn_names(gen))
+    known = set(inv) | set(k.split('#')[0] for k in fns)
+    out = set()
+    for n in names - known:
+        # prelude / postlude helpers of the contract files are named verif_*, lemma_*, axiom_*, canary_*, c_*, dec_c_* or are spec functions
+        if re.match(r'(verif_|lemma_|axiom_|canary_|c_|dec_c_|ax_)', n):
+            continue
+        if re.search(r'(spec|proof)\s+fn\s+%s\b' % re.escape(n), gen):
+            continue
+        if re.search(r'#\[verifier::external_body\]\s*(pub\s+)?fn\s+%s\b' % re.escape(n), gen) or re.search(r'assume_specification[^;]*\b%s\b' % re.escape(n), gen):
+            continue
+        out.add(n)
+    return out
+
+
+def _calls_new_helper(gen, fns, f, new_helpers):
+    if not new_helpers:
+        return None
+    e = fns.get(f['fn'])
+    if not e:
+        return None
+    lo, hi = e['line_start'], e['line_end']
+    if f.get('arm'):
+        for a in e['arms']:
+            if arm_label(a['pat']) == f['arm'].split('/')[0]:
+                lo, hi = a['line_start'], a['line_end']
+    region = '\n'.join(gen.split('\n')[lo - 1:hi])
+    # transitively: a helper called from the region, or a helper called by such a helper
+    for n in sorted(new_helpers):
+        if re.search(r'\b%s\s*\(' % re.escape(n), region):
+            return n
+    return None
 
 
 def _loc_text(d):
